@@ -229,8 +229,16 @@ fn check_sequence(content: &[u8], ops: &[Op], sim: &mut SimReader, faults: bool)
                     if !faults && w != g {
                         fail!("error-differs-from-model", opname(op), "op {i} {op:?}: model {w:?} adapter {g:?}");
                     }
-                    // state after an error is unspecified: stop here
+                    // An end-of-input error consumes nothing on the in-memory reader (it checks
+                    // before it reads), and the statement speaks of *every* sequence: on a
+                    // fault-free stream the sequence goes on and the adapter must still agree -
+                    // the bytes it has buffered are still there. After any other error, or under
+                    // injected faults, the state is unspecified: stop.
                     stats::probe("probe.sequence_ended_in_error");
+                    if !faults && matches!(w, utils::DeserializationError::UnexpectedEOF) && matches!(g, utils::DeserializationError::UnexpectedEOF) {
+                        stats::probe("probe.sequence_continued_after_end_of_input_error");
+                        continue;
+                    }
                     return Ok(());
                 },
                 (Ok(w), Err(g)) => {
